@@ -195,6 +195,9 @@ func runProperty(p *Program, prop string, budget int, known map[string]bool) *pr
 		rep := p.verifyFunction(fn, p.cs.Funcs[k])
 		pr.reports = append(pr.reports, rep)
 	}
+	if prop == "" || prop == "C13" {
+		pr.reports = append(pr.reports, goSpawnReport(p))
+	}
 	// discharge all relevant obligations with one worker pool
 	type job struct {
 		rep *FuncReport
@@ -203,6 +206,15 @@ func runProperty(p *Program, prop string, budget int, known map[string]bool) *pr
 	var jobs []job
 	for _, rep := range pr.reports {
 		x := rep.exec
+		if x == nil {
+			pr.trivial += rep.Trivial
+			for _, ob := range rep.Obls {
+				if prop == "" || relevant(ob, prop) {
+					jobs = append(jobs, job{rep, ob})
+				}
+			}
+			continue
+		}
 		var gf strings.Builder
 		for _, n := range x.globalFunOrder {
 			sig := x.globalFuns[n]
@@ -326,6 +338,15 @@ func cmdBaseline(cfg Config) int {
 		}
 		for _, prop := range props {
 			c := p.cs.Funcs[s.Function]
+			if s.Kind == "go" {
+				if prop == "C13" {
+					if b.Props[prop] == nil {
+						b.Props[prop] = map[string]int64{}
+					}
+					b.Props[prop][name] = 0
+				}
+				continue
+			}
 			if c == nil || !(clauseTags(c)[prop] || callsTaggedPrecondition(p, s.Function, prop)) {
 				continue
 			}
@@ -425,7 +446,14 @@ func cmdCheck(cfg Config, prop, tier string) int {
 		}
 		violations++
 		payload := map[string]interface{}{"property": prop, "obligation": name, "reason": why}
-		if s != nil && s.worst != nil {
+		if s != nil && s.worst != nil && s.worst.node == nil {
+			payload["function"] = s.Function
+			payload["kind"] = s.Kind
+			payload["pos"] = s.Pos
+			payload["solver_status"] = s.Status
+			payload["solver"] = s.Solver
+			payload["solver_output"] = s.worst.result.Raw
+		} else if s != nil && s.worst != nil {
 			x := findExec(pr, s.worst)
 			q := x.buildQuery(s.worst.node)
 			payload["function"] = s.Function
@@ -593,7 +621,7 @@ func writeEvidence(cfg Config, p *Program, pr *propRun, tier string, seed, viola
 		byBackend[s.Solver]++
 		totalMs += s.Ms
 		if s.worst != nil {
-			if x := findExec(pr, s.worst); x != nil && len(samples) < 400 {
+			if x := findExec(pr, s.worst); x != nil && s.worst.node != nil && len(samples) < 400 {
 				s.SMTBytes = len(x.buildQuery(s.worst.node))
 			}
 		}
@@ -700,4 +728,78 @@ func cmdReplay(cfg Config, prop, path string) int {
 // tryReplay: concrete replay of a counterexample on the real code (see replay.go).
 func tryReplay(cfg Config, p *Program, prop, name string, s *oblSummary, payload map[string]interface{}, path string) bool {
 	return false
+}
+
+// goSpawnReport: the spawn sweep (C13). Every `go` statement in the non-test code of the repository starts
+// a panic domain of its own. For each of them there is one obligation, decided structurally: the spawned
+// function is under a contract that does not declare `panics may` - so that either gocv proves that no
+// panic escapes it (its `panic:` obligations), or the contract is `trusted` and listed as an assumption.
+// A go statement whose target cannot be resolved, has no contract, or may panic fails the obligation.
+func goSpawnReport(p *Program) *FuncReport {
+	rep := &FuncReport{Key: "(go statements)"}
+	var fns []*ssa.Function
+	for _, fn := range p.funcs {
+		if pk := fn.Package(); pk != nil && pk.Pkg != nil && strings.HasPrefix(pk.Pkg.Path(), modulePrefix) {
+			fns = append(fns, fn)
+		}
+	}
+	sort.Slice(fns, func(i, j int) bool { return funcKey(fns[i]) < funcKey(fns[j]) })
+	seen := map[*ssa.Function]bool{}
+	var visit func(fn *ssa.Function)
+	visit = func(fn *ssa.Function) {
+		if seen[fn] {
+			return
+		}
+		seen[fn] = true
+		ord := 0
+		for _, b := range fn.Blocks {
+			for _, in := range b.Instrs {
+				g, ok := in.(*ssa.Go)
+				if !ok {
+					continue
+				}
+				ord++
+				target := "?"
+				status, why := "sat", "the spawned function cannot be resolved statically"
+				var callee *ssa.Function
+				if !g.Call.IsInvoke() {
+					switch v := g.Call.Value.(type) {
+					case *ssa.Function:
+						callee = v
+					case *ssa.MakeClosure:
+						callee, _ = v.Fn.(*ssa.Function)
+					}
+				}
+				if callee != nil {
+					target = shortKey(funcKey(callee))
+					ct := p.cs.Funcs[funcKey(callee)]
+					switch {
+					case ct == nil || ct.Inline:
+						why = "the spawned function is not under contract: nothing shows that it contains its panics"
+					case ct.Panics == "may":
+						why = "the contract of the spawned function declares `panics may`: a panic would end the process"
+					case ct.Trusted != "":
+						status, why = "unsat", "assumed (trusted contract): "+ct.Trusted
+					default:
+						status, why = "unsat", "the spawned function is verified without `panics may`: an escaping panic is a failed obligation of it"
+					}
+				}
+				name := fmt.Sprintf("%s#go:%s", funcKey(fn), target)
+				if ord > 1 {
+					name = fmt.Sprintf("%s#go:%s#%d", funcKey(fn), target, ord)
+				}
+				ob := &Obligation{Name: name, Kind: "go", Func: rep.Key, Tags: []string{"C13"}, Pos: p.posString(g.Pos()), pre: true}
+				ob.status = status
+				ob.result = SolveResult{Status: status, Solver: "structural", Raw: why}
+				rep.Obls = append(rep.Obls, ob)
+			}
+		}
+		for _, af := range fn.AnonFuncs {
+			visit(af)
+		}
+	}
+	for _, fn := range fns {
+		visit(fn)
+	}
+	return rep
 }
